@@ -24,6 +24,9 @@ type UDPHandler struct {
 	BufSize   int    `json:"bufsize,omitempty"`   // read buffer (default 9000)
 	CloseSelf bool   `json:"close_self,omitempty"`
 	NoReply   bool   `json:"no_reply,omitempty"`
+	// ReadClose: one goroutine keeps reading while another closes the connection after EndAfter reads
+	// (what the proxy handler's two copy directions do): the blocked Read wakes up on the close.
+	ReadClose bool `json:"read_close,omitempty"`
 }
 
 func (*UDPHandler) CaddyModule() caddy.ModuleInfo {
@@ -40,6 +43,35 @@ func (h *UDPHandler) Handle(cx *layer4.Connection, _ layer4.Handler) error {
 	}
 	buf := make([]byte, bs)
 	reads := 0
+	if h.ReadClose {
+		var nreads atomic.Int64
+		done := make(chan struct{})
+		go func() {
+			defer close(done)
+			for {
+				n, err := cx.Read(buf)
+				if n > 0 {
+					nreads.Add(1)
+					rec.Add(Event{Kind: "udp-read", Who: h.Name, N: int(assoc), Data: append([]byte(nil), buf[:n]...)})
+				}
+				if err != nil {
+					return
+				}
+			}
+		}()
+		want := int64(h.EndAfter)
+		if want <= 0 {
+			want = 2
+		}
+		deadline := time.Now().Add(50 * time.Millisecond)
+		for nreads.Load() < want && time.Now().Before(deadline) {
+			time.Sleep(100 * time.Microsecond)
+		}
+		rec.Add(Event{Kind: "udp-end", Who: h.Name, N: int(assoc), S: "read_close"})
+		_ = cx.Close()
+		<-done
+		return nil
+	}
 	for {
 		n, err := cx.Read(buf)
 		if n > 0 {
